@@ -401,10 +401,14 @@ pub fn run(tier: &str) -> i32 {
         }
     });
     let st = stats.into_inner().unwrap();
+    // credentials must not carry over between sessions of different clients on the real servers
+    let mut iso_rng = Rng::new(seed() ^ 0x150c09);
+    let iso = crate::transports::session_isolation(&v, false, &mut iso_rng, if tier == "thorough" { 400 } else { 40 });
+    ev.set("sessions_over_real_transports", iso.to_json());
     ev.evaluations = st.cells;
     ev.distinct_nontrivial = st.distinct.len() as u64;
     ev.exhaustive = Some(true);
-    ev.rule = format!("matrix: {} credentials (none, wrong password, wrong token, db token, admin+db, user token with no list and {} permission lists over kinds r/w/i/x x patterns prefix*/ *suffix / contains / multi-entry) x {} commands (every command word, data commands over 8 keys incl. $$ and $conflicts, rp-wrapped forms, unknown word) = {} sessions executed completely (exhaustive for this alphabet), + {} random user sessions of 3-12 commands with administrator permission changes in the middle; distinct_nontrivial = distinct (credential class, command word, model verdict) cells", creds.len(), perm_lists().len() - 1, cmds.len(), matrix_sessions, n_random);
+    ev.rule = format!("matrix: {} credentials (none, wrong password, wrong token, db token, admin+db, user token with no list and {} permission lists over kinds r/w/i/x x patterns prefix*/ *suffix / contains / multi-entry) x {} commands (every command word, data commands over 8 keys incl. $$ and $conflicts, rp-wrapped forms, unknown word) = {} sessions executed completely (exhaustive for this alphabet), + {} random user sessions of 3-12 commands with administrator permission changes in the middle; distinct_nontrivial = distinct (credential class, command word, model verdict) cells; + {} sessions without administrator credential over the real TCP / HTTP / WebSocket servers of one node, after / between administrator sessions over the same servers (every HTTP worker has served one): administrator commands must leave databases, users and permission lists unchanged and return no cluster data, and keys outside the session's credential stay unread and unchanged (state re-read after every session)", creds.len(), perm_lists().len() - 1, cmds.len(), matrix_sessions, n_random, iso.other_sessions);
     ev.samples = st.samples.clone();
     ev.set("refused_cells_checked_for_error_nodata_unchanged_noclustermsg", json!(st.refused_cells));
     ev.set("allowed_cells_checked_for_no_credential_error", json!(st.allowed_cells));
